@@ -138,18 +138,19 @@ def planeSubs (a : Nat) (c : Rat) : List (String × Region) → M (List (String 
         | .error e => .error e
         | .ok l => .ok ((p.1, r) :: l)
 
-/-- subregions of a range selection `[lo, hi]` (faces): dropped when not overlapping,
-otherwise clipped along axis `a` -/
-def rangeSubs (a : Nat) (lo hi : Rat) : List (String × Region) → M (List (String × Region))
+/-- subregions of a range selection `[lo, hi]` (faces): kept only when they overlap the slab
+by more than half a cell (`step`; subregions consist of whole cells, a smaller overlap is a
+rounding artefact at a shared face), then clipped along axis `a` -/
+def rangeSubs (a : Nat) (lo hi step : Rat) : List (String × Region) → M (List (String × Region))
   | [] => .ok []
   | p :: rest =>
-    if hi ≤ p.2.lo a ∨ p.2.hi a ≤ lo then rangeSubs a lo hi rest
+    if hi - step ≤ p.2.lo a ∨ p.2.hi a - step ≤ lo then rangeSubs a lo hi step rest
     else
       match Region.mk? (setAt p.2.pmin a (max lo (p.2.lo a))) (setAt p.2.pmax a (min hi (p.2.hi a)))
           none none with
       | .error e => .error e
       | .ok r =>
-        match rangeSubs a lo hi rest with
+        match rangeSubs a lo hi step rest with
         | .error e => .error e
         | .ok l => .ok ((p.1, r) :: l)
 
@@ -165,7 +166,7 @@ def selPlaneMesh (m : Mesh) (a : Nat) (c : Rat) : M Mesh :=
 
 /-- mesh of a range selection from the cell with centre `c1` to the cell with centre `c2` -/
 def selRangeMesh (m : Mesh) (a : Nat) (c1 c2 : Rat) : M Mesh :=
-  match rangeSubs a (c1 - m.cellAt a / 2) (c2 + m.cellAt a / 2) m.subs with
+  match rangeSubs a (c1 - m.cellAt a / 2) (c2 + m.cellAt a / 2) (m.cellAt a / 2) m.subs with
   | .error e => .error e
   | .ok subs =>
     match Region.mk? (setAt m.region.pmin a (c1 - m.cellAt a / 2))
@@ -223,6 +224,10 @@ def selFld (f : Fld) (dim : String) (arg : SelArg) : M SelOut :=
 /-- index of the last cell needed to cover `x` from below: `ceil((x - pmin)/cell) - 1` -/
 def upperIdx (m : Mesh) (a : Nat) (x : Rat) : Int := ((x - m.region.lo a) / m.cellAt a).ceil - 1
 
+/-- … clipped to the valid indices (`np.clip(p2_idx, 0, n - 1)`) -/
+def upperIdxC (m : Mesh) (a : Nat) (x : Rat) : Int :=
+  Mesh.clipInt (upperIdx m a x) 0 ((m.nAt a : Int) - 1)
+
 /-- `mesh[region]`: smallest block of whole cells containing `item` -/
 def getRegion (m : Mesh) (item : Region) : M Mesh :=
   if !m.region.containsReg item then .error .value
@@ -233,7 +238,7 @@ def getRegion (m : Mesh) (item : Region) : M Mesh :=
       match m.index2point (natsToInts i1) with
       | .error e => .error e
       | .ok c1 =>
-        match m.index2point (tab m.ndim fun a => upperIdx m a (item.hi a)) with
+        match m.index2point (tab m.ndim fun a => upperIdxC m a (item.hi a)) with
         | .error e => .error e
         | .ok c2 =>
           match Region.mk? (tab m.ndim fun a => c1.getD a 0 - m.cellAt a / 2)
